@@ -123,6 +123,13 @@ def f_info(file_info):
     return task_body(_tid(file_info))
 
 
+def f_args_info(a, b, file_info, flag=None):
+    """function with extra positional and keyword arguments: it must receive exactly those
+    (args=, kwargs=) followed by the file argument."""
+    r = task_body(_tid(file_info))
+    return None if r is None else r + [[a, b, flag]]
+
+
 def f_content_info(content, file_info):
     r = task_body(_tid(file_info))
     return None if r is None else r + [content]
@@ -231,9 +238,13 @@ class Exec:
                 kwargs["end"] = files[-1][2] + D(seconds=1)
                 if bundle:
                     kwargs["bundle"] = bundle
+            extra = cfg.get("extra_args")
             if method in ("map", "imap"):
                 if on_content:
                     kwargs.update(func=f_content_info, on_content=True, pass_info=True)
+                elif extra:
+                    user_args = ["A", 7] if extra == "list" else ("A", 7)
+                    kwargs.update(func=f_args_info, args=user_args, kwargs={"flag": "k"})
                 else:
                     kwargs.update(func=f_info)
                 kwargs.update(worker_type=cfg["wt"], max_workers=W,
@@ -294,6 +305,9 @@ class Exec:
             rec.count("exec." + method)
             rec.count("probe.imap.lines", probe_hits["lines"])
             hist = {"cfg": cfg, "choices": ctl.taken, "branching": ctl.branching, "order": ctl.order}
+            if cfg.get("extra_args") == "list" and "user_args" in locals() and user_args != ["A", 7]:
+                rec.violation("results-wrong", {"kind": "exec", "cfg": cfg, "choices": ctl.taken},
+                              {"why": "the caller's args list was modified", "args_now": repr(user_args)[:200]})
             self.check_history(rec, hist, files, tids, ids, results, exc, events, probe_hits, caught)
             return ctl.taken, ctl.branching, ctl.order
         finally:
@@ -382,6 +396,8 @@ class Exec:
                         val = ["res", t]
                         if cfg["on_content"]:
                             val = val + [[g[3] for g in group] if bundle else group[0][3]]
+                        elif cfg.get("extra_args"):
+                            val = val + [["A", 7, "k"]]
                 want.append(([g[0] for g in group], val))
             got = []
             for item in results:
@@ -528,6 +544,8 @@ def gen_cfg(rng):
         cfg["error_to_warning"] = rng.random() < 0.7
     if method in ("map", "imap") and rng.random() < 0.3:
         cfg["ret_none"] = rng.sample(tids, 1)
+    if method in ("map", "imap") and not cfg["on_content"] and rng.random() < 0.4:
+        cfg["extra_args"] = rng.choice(["list", "tuple"])
     if method == "collect" and cfg["fail_read"] and cfg["error_to_warning"] and \
             len(cfg["fail_read"]) >= len(tids):
         cfg["fail_read"] = cfg["fail_read"][:1]
